@@ -116,7 +116,7 @@ Proof.
   intros a b n Hb Hn. unfold py_upto, py_slice, norm_index.
   rewrite len_app. pose proof (len_nonneg a).
   destruct (- n <? 0) eqn:E1; [|lia].
-  simpl (0 <? 0). cbv iota.
+  change (0 <? 0) with false. cbv iota.
   rewrite Z.max_r by lia. rewrite Z.min_l by lia.
   replace (Z.to_nat (len a + len b + - n - 0)) with (length a) by (unfold len in *; lia).
   simpl. rewrite firstn_app, firstn_all, Nat.sub_diag. simpl. apply app_nil_r.
@@ -125,11 +125,12 @@ Qed.
 Lemma py_upto_nonneg : forall l k, 0 <= k -> py_upto l k = firstn (Z.to_nat k) l.
 Proof.
   intros l k Hk. unfold py_upto, py_slice, norm_index. pose proof (len_nonneg l).
-  simpl (0 <? 0). cbv iota. rewrite Z.min_l by lia.
-  destruct (k <? 0) eqn:E; [lia|]. simpl.
+  change (0 <? 0) with false. cbv iota. rewrite (Z.min_l 0) by lia.
+  destruct (k <? 0) eqn:E; [lia|]. change (Z.to_nat 0) with 0%nat. cbn [skipn].
+  rewrite Z.sub_0_r.
   destruct (Z.le_ge_cases k (len l)).
-  - rewrite Z.min_l by lia. f_equal. lia.
-  - rewrite Z.min_r by lia. rewrite Z.sub_0_r.
+  - rewrite Z.min_l by lia. reflexivity.
+  - rewrite Z.min_r by lia.
     rewrite !firstn_all2; auto; unfold len in *; lia.
 Qed.
 
@@ -140,7 +141,7 @@ Proof.
   rewrite (Z.min_l (len l)) by lia.
   destruct (Z.le_ge_cases k (len l)).
   - rewrite Z.min_l by lia. apply firstn_all2. rewrite skipn_length. unfold len in *. lia.
-  - rewrite Z.min_r by lia. rewrite Z.sub_diag. simpl.
+  - rewrite Z.min_r by lia. rewrite Z.sub_diag. change (Z.to_nat 0) with 0%nat. cbn [firstn].
     symmetry. apply skipn_all2. unfold len in *. lia.
 Qed.
 
@@ -148,13 +149,13 @@ Lemma py_slice_second_last : forall a c1 c2, len c1 = 16 -> len c2 = 16 ->
   py_slice (a ++ c1 ++ c2) (-32) (-16) = c1.
 Proof.
   intros a c1 c2 H1 H2. unfold py_slice, norm_index. rewrite !len_app.
-  pose proof (len_nonneg a). simpl (-32 <? 0). simpl (-16 <? 0). cbv iota.
+  pose proof (len_nonneg a). change (-32 <? 0) with true. change (-16 <? 0) with true. cbv iota.
   rewrite !Z.max_r by lia.
   replace (Z.to_nat (len a + (len c1 + len c2) + -32)) with (length a) by (unfold len in *; lia).
   replace (Z.to_nat (len a + (len c1 + len c2) + -16 - (len a + (len c1 + len c2) + -32))) with 16%nat by lia.
-  rewrite skipn_app, skipn_all, Nat.sub_diag. simpl (skipn 0 _). simpl ([] ++ _).
+  rewrite skipn_app, skipn_all, Nat.sub_diag. cbn [skipn app].
   rewrite firstn_app. replace (16 - length c1)%nat with 0%nat by (unfold len in *; lia).
-  simpl. rewrite app_nil_r. apply firstn_all2. unfold len in *. lia.
+  rewrite firstn_O, app_nil_r. apply firstn_all2. unfold len in *. lia.
 Qed.
 
 Lemma py_splice_app : forall a b v n, len a = n -> py_splice (a ++ b) n (len (a ++ b)) v = a ++ v.
@@ -169,27 +170,31 @@ Proof.
 Qed.
 
 (* ------------------------------------------------------------------ be_int / to_be *)
+Lemma len_cons : forall x l, len (x :: l) = len l + 1.
+Proof. intros. unfold len. cbn [length]. lia. Qed.
+
 Lemma be_int_acc : forall l acc,
   fold_left (fun a b => a * 256 + b) l acc = acc * 256 ^ len l + be_int l.
 Proof.
   unfold be_int. induction l as [|x l IH]; intros acc.
-  - simpl. unfold len. simpl. lia.
-  - simpl. rewrite IH. rewrite (IH x).
-    replace (len (x :: l)) with (len l + 1) by (unfold len; simpl length; lia).
-    rewrite Z.pow_add_r by (unfold len; lia). lia.
+  - cbn [fold_left]. change (len []) with 0. rewrite Z.pow_0_r. ring.
+  - cbn [fold_left]. rewrite (IH (acc * 256 + x)), (IH (0 * 256 + x)).
+    rewrite len_cons. rewrite Z.pow_add_r by (unfold len; lia).
+    change (256 ^ 1) with 256. ring.
 Qed.
 
 Lemma be_int_cons : forall x l, be_int (x :: l) = x * 256 ^ len l + be_int l.
-Proof. intros. unfold be_int at 1. simpl. rewrite be_int_acc. reflexivity. Qed.
+Proof.
+  intros. unfold be_int at 1. cbn [fold_left]. rewrite be_int_acc. ring.
+Qed.
 
 Lemma be_int_bound : forall l, bytes_ok l = true -> 0 <= be_int l < 256 ^ len l.
 Proof.
   induction l as [|x l IH]; intros H.
-  - unfold be_int, len. simpl. lia.
+  - unfold be_int. change (len []) with 0. cbn. lia.
   - rewrite bytes_ok_cons in H. apply andb_true_iff in H as [Hx Hl].
     apply byte_ok_iff in Hx. specialize (IH Hl). rewrite be_int_cons.
-    replace (len (x :: l)) with (len l + 1) by (unfold len; simpl length; lia).
-    rewrite Z.pow_add_r by (unfold len; lia).
+    rewrite len_cons. rewrite Z.pow_add_r by (unfold len; lia). change (256 ^ 1) with 256.
     assert (0 < 256 ^ len l) by (apply Z.pow_pos_nonneg; unfold len; lia). nia.
 Qed.
 
